@@ -586,7 +586,8 @@ def check_handoff(ctx, inst):
     ctx.check(len(sites) >= 12, inst, "anchor", "-", "publication / removal sites with a hand-off (>= 12, found %d)" % len(sites), None)
     for (b, m, kind) in sites:
         want = ("WriteBuffer::add_replacement",) if kind in ("repl", "ttl") else ("WriteBuffer::add_write", "WriteBuffer::add_replacement")
-        H = {n.id for n in b.calls() if any(R.call_matches(n.ev, w) for w in want)}
+        # the hand-off call itself, or a thin private helper that makes it (`finish_replacement(key, new, old)`)
+        H = set(R.call_or_thin_helper(*want)(b))
         ctx.check(bool(H), inst, "anchor", b.path, "the %s site is followed by a hand-off call (%s)" % (kind, " / ".join(w.rsplit("::", 1)[-1] for w in want)), b.where(m))
         if not H:
             continue
